@@ -88,7 +88,7 @@ func ProtectionWebhookConfig() *admissionregistrationv1.MutatingWebhookConfigura
 // DiscardRecorder is a record.EventRecorder that drops events (record.FakeRecorder blocks when its channel is full).
 type DiscardRecorder struct{}
 
-func (DiscardRecorder) Event(runtime.Object, string, string, string)                    {}
+func (DiscardRecorder) Event(runtime.Object, string, string, string)                  {}
 func (DiscardRecorder) Eventf(runtime.Object, string, string, string, ...interface{}) {}
 func (DiscardRecorder) AnnotatedEventf(runtime.Object, map[string]string, string, string, string, ...interface{}) {
 }
